@@ -153,8 +153,14 @@ func c05Pair(r *gen.Rand, L int) ([]world.File, []world.File) {
 		for _, f := range a {
 			switch r.Intn(5) {
 			case 0: // removed
-			case 1: // changed
-				b = append(b, world.File{Name: f.Name, Data: append(append([]byte(nil), f.Data...), byte(r.Intn(256)))})
+			case 1: // changed: another length, or the same length with one byte altered
+				d := append([]byte(nil), f.Data...)
+				if len(d) > 0 && r.Bool() {
+					d[r.Intn(len(d))] ^= byte(1 + r.Intn(255))
+				} else {
+					d = append(d, byte(r.Intn(256)))
+				}
+				b = append(b, world.File{Name: f.Name, Data: d})
 			case 2: // renamed
 				b = append(b, world.File{Name: f.Name + ".renamed", Data: f.Data})
 			default:
